@@ -1122,6 +1122,8 @@ class WcParse(Generic[AnyStr]):
             if c == '[':
                 last_posix = self._handle_posix(i, result, end_range)
                 if last_posix:
+                    # The pending range delimiter (if any) has been escaped: the range is over.
+                    end_range = 0
                     c = next(i)
                     continue
 
